@@ -136,6 +136,11 @@ def ax_order(o):
     return f
 
 
+def ax_split_rev(doc):
+    ax_split(doc)
+    doc["split"] = "reversed"
+
+
 def ax_split(doc):
     doc["split"] = True
     m, p, k, lane, v = _first(doc)
@@ -166,7 +171,7 @@ AXES = [
     ("ln", [("same-measure", ax_ln(0, F(3, 4))), ("next-measure", ax_ln(1, F(1, 2))), ("obj0A", ax_ln(2, F(0), "0A"))]),
     ("wav", [("unknown", ax_wav_unknown)]),
     ("order", [(o, ax_order(o)) for o in ("reversed", "tempo_last", "by_channel")]),
-    ("split", [("on", ax_split)]),
+    ("split", [("on", ax_split), ("later-part-first", ax_split_rev)]),
     ("misc", [("on", ax_misc)]),
 ]
 
@@ -241,7 +246,10 @@ def render(doc):
     for (m, ch), evs in groups.items():
         parts = [evs]
         if doc["split"] and len(evs) >= 2:
+            evs = sorted(evs, key=lambda e: e[0])
             parts = [evs[:1], evs[1:]]
+            if doc["split"] == "reversed":
+                parts = parts[::-1]  # the line holding the later objects comes first in the file
         for part in parts:
             n = 1
             for p, _, _ in part:
